@@ -493,3 +493,49 @@ def c08(tier, seed):
         "states (live buffer prefix, counters, chaining value) for symbolic contents, buffer positions {0,1,bs-1} and all "
         "pairs of lengths from {0,1,bs-1,bs,bs+1,2bs+3}: 108 compositions per type. Finalisation is a function of the state "
         "(C04-C07), so equal states give equal digests.", trusted_base=["engine/bv.py", "engine/models.py", "rustc type facts"])
+
+
+from . import check_dispatch
+
+
+def _c03_values(report, cfg):
+    """Every dispatching algorithm entry through its dispatcher in one configuration."""
+    check_chacha.c14(report, cfg, [10])
+    check_blake.c04_dispatch(report, cfg)
+    check_jh.c06_dispatch(report, cfg)
+    return 1
+
+
+@check("C03")
+def c03(tier, seed):
+    r = Report("C03", tier, "other", seed)
+    cfgs = ["K1", "K2"] + (["K3-sse2", "K3-ssse3", "K3-sse41", "K3-avx", "K3-avx2"] if tier == "thorough" else [])
+    for c in cfgs:
+        facts.load(c)
+    jobs = [(_c03_values, (c,)) for c in cfgs]
+    jobs.append((check_dispatch.c03_arms, ("K1",)))
+    jobs.append((check_dispatch.c03_instance_callers, ("K1",)))
+    rets = par.run(r, jobs)
+    nsites, narms = rets[len(cfgs)]
+    r.floor("run-time dispatch sites (ppv-lite86 macros)", nsites, 12)
+    r.floor("run-time dispatch arms", narms, 39)
+    r.floor("configurations", len(cfgs), 2 if tier == "quick" else 7)
+    if tier == "thorough":
+        ok, err = check_static.build_witness(doc=True)
+        if ok:
+            r.ok("R3.2", "compile_fail witness: safe code cannot call Machine::instance (E0133), compiling twin passes")
+        else:
+            r.violated("R3.2", "witness:instance-unsafe", "Machine::instance became callable from safe code or the witness no longer builds: %s" % err)
+    r.assumptions = ["C12/C13 decide every vocabulary operation per backend; here whole algorithms are compared through their dispatchers",
+                     "CPU-feature detection results are free boolean symbols: an if-then-else over them collapses only if every arm yields the same value graph",
+                     "Groestl's own dispatcher is outside this property (ppv-lite86 backends); noted in DESIGN.md"]
+    return r.finish(
+        "Value level: in each build configuration (K1 std run-time dispatch with all arms joined; K2 no_simd portable; thorough: "
+        "five no-std builds with compile-time target features sse2/ssse3/sse4.1/avx/avx2) ChaCha refill/refill4, the BLAKE-256/512 "
+        "compression dispatcher and JH f8 are evaluated through their dispatchers on symbolic inputs and must equal the one "
+        "reference definition - hence each other - with no operand-dependent panic in any arm. Structure: R3.3 for each of the 41 "
+        "run-time arms, target features required by everything reachable from the arm are enabled by the arm, and the arm's "
+        "features are implied by the detection that dominates its call (rustc's implication table); R3.2 all arms of a site call "
+        "one fn_impl body and forward their parameters positionally; Machine::instance() is called from arms only (and needs "
+        "unsafe: compile_fail witness in the thorough tier).",
+        trusted_base=["engine/models.py", "engine/bv.py", "spec/*.py", "rustc target-feature facts"])
